@@ -203,27 +203,44 @@ fn exchange_legacy(t: &mut Trace, rng: &mut Rng) -> usize {
     let trailing: Vec<u8> = (0..tlen).map(|i| (i * 5 + 3) as u8).collect();
     let mut to_a: Vec<u8> = Vec::new();      // in flight towards the library
     let mut from_a: Vec<u8> = Vec::new();    // everything the library emitted
-    let mut peer_sent_p2 = false;
     let mode = *rng.pick(&[0u64, 0, 2, 2, 2, 3, 3, 3, 1]);
     let mut calls = 0usize;
     let mut done = false;
     let mut app: Vec<u8> = Vec::new();
-    let a_starts = rng.chance(1, 2);
+    // the peer's style, as in MC_HandshakeLegacy: it starts (wait 0), or waits for the version byte (1) or for packets
+    // 0 + 1 (1 + P) before sending anything; it may send packets 0, 1 and 2 in one go; it sends application data right
+    // after its packet 2 or only once it has the library's packet 2 (strict)
+    let wait = *rng.pick(&[0usize, 0, 1, 1 + P]);
+    let batch = wait == 1 + P && rng.chance(1, 2);
+    let strict = rng.chance(1, 2);
+    let a_starts = wait > 0 || rng.chance(1, 2);
     if a_starts {
         let (ev, bytes) = gen_event(&mut a);
         t.emit(&ev);
         from_a.extend_from_slice(&bytes);
     }
-    to_a.push(3);
-    to_a.extend_from_slice(&p1);
+    let (mut sent01, mut sent2, mut sent_t) = (false, false, false);
     let mut guard = 0;
     loop {
         guard += 1;
         if guard > 20000 { break; }
-        if !peer_sent_p2 && from_a.len() >= 1 + P {
-            peer_sent_p2 = true;
+        if !sent01 && from_a.len() >= wait && (!batch || from_a.len() >= 1 + P) {
+            sent01 = true;
+            to_a.push(3);
+            to_a.extend_from_slice(&p1);
+            if batch {
+                sent2 = true;
+                let echo = from_a[1..1 + P].to_vec();
+                to_a.extend_from_slice(&echo);
+            }
+        }
+        if sent01 && !sent2 && from_a.len() >= 1 + P {
+            sent2 = true;
             let echo = from_a[1..1 + P].to_vec();
             to_a.extend_from_slice(&echo);
+        }
+        if sent2 && !sent_t && (!strict || from_a.len() >= 1 + 2 * P) {
+            sent_t = true;
             to_a.extend_from_slice(&trailing);
         }
         if to_a.is_empty() { break; }
